@@ -255,6 +255,40 @@ def h_sequence(eng, ops, quiet=False):
             _same(eng, a, b, f"{tag}:{la}")
 
 
+def h_redefinition_history(eng, pre):
+    """a unit redefined through define() (on_redefinition='ignore'/'warn' registries): afterwards
+    every question is answered from the new definition, as by a registry built from the text with
+    the second definition in it -- whatever had been asked, and so memoised, before"""
+    W = World(eng)
+    su2, x = eng.real("su2"), eng.real("x")
+    eng.assume(su2 > 0)
+    eng.assume(Not(Eq(su2, W.su)))
+    lines = _text(W, late=False)
+    line = f"u = {eng.lit(su2)} * m = U_ = uu"
+    used = regs.build(eng, lines, on_redefinition="ignore")
+    Qy = used.Quantity
+    if pre in ("conversions", "all"):
+        Qy(x, "u").to("m")
+        Qy(x, "w").to("m")
+        Qy(x, "kku").to("w")
+    if pre in ("roots", "all"):
+        used.get_root_units("u")
+        used.get_root_units("w")
+        Qy(x, "w").to_base_units()
+        used.get_base_units("kku")
+    if pre in ("names", "all"):
+        used.parse_units("kkw")
+        used.get_name("uus")
+        used.get_compatible_units("w")
+    used.define(line)
+    i = lines.index("@defaults")
+    fresh = regs.build(eng, lines[:i] + [line] + lines[i:], on_redefinition="ignore")
+    for (la, a), (_lb, b) in zip(_answers(eng, used, x, None), _answers(eng, fresh, x, None)):
+        _same(eng, a, b, f"redefinition:pre={pre}:{la}")
+    eng.prove(Eq(used.Quantity(x, "w").to("m").magnitude, 3 * su2 * x), f"redefinition:pre={pre}:dependent-unit-follows")
+    eng.prove(Eq(used.get_root_units("w")[0], 3 * su2), f"redefinition:pre={pre}:get_root_units-follows")
+
+
 def h_programmatic_context_history(eng, first, endpoints):
     """a Context object built in code (endpoints written as derived dimension names): what a plain
     activation answers does not depend on how the context was activated the first time"""
@@ -402,6 +436,8 @@ def cases(tier, seed):
     from .. import covers
 
     fp = covers.same_dim_pairs(seed, 400 if big else 60) + [("minute", "second"), ("week", "day"), ("pound", "kilogram"), ("second", "minute"), ("inch", "yard"), ("hour", "millisecond")]
+    for pre in ("nothing", "conversions", "roots", "names", "all"):
+        out.append(Case("H13", f"redefinition:pre={pre}", M, "h_redefinition_history", {"pre": pre}, opts={"hash_mode": "mixed", "max_paths": 300}, validate=1))
     for first in ("per-call-kw", "with-kw", "enable-kw", "nested-inherits", "plain"):
         for ep in ("derived", "derived-both"):
             out.append(Case("H13", f"programmatic-context:{first}:{ep}", M, "h_programmatic_context_history", {"first": first, "endpoints": ep}, opts={"hash_mode": "mixed", "max_paths": 300}, validate=1))
